@@ -9,6 +9,7 @@ import (
 	"math"
 	"os"
 	"sort"
+	"strconv"
 	"strings"
 
 	vc "github.com/renbou/grpcbridge/internal/zzverif/vcommon"
@@ -407,10 +408,15 @@ func decodePart(w *vc.Writer, r *vc.Rand) {
 				used := map[string]bool{}
 				for j := 0; j < rr.Intn(4); j++ {
 					key := rr.Pick(keyTexts[kk])
-					if used[key] {
+					// two texts denoting the same key ("1" and "1.0") make the result depend on Go's map iteration order
+					class := key
+					if f, err := strconv.ParseFloat(key, 64); err == nil && kk != 7 {
+						class = strconv.FormatFloat(f, 'g', -1, 64)
+					}
+					if used[class] {
 						continue
 					}
-					used[key] = true
+					used[class] = true
 					kb, _ := json.Marshal(key)
 					ents = append(ents, string(kb)+":"+vtexts[rr.Intn(len(vtexts))])
 				}
